@@ -25,6 +25,7 @@ type ZZModelReader struct {
 	Tag        string
 	MaxEmpty   int  // maximum number of consecutive (0, nil) reads
 	NoEOFData  bool // never return EOF together with rows
+	Deterministic bool // always serve as many rows as fit (no chunking choice)
 	FailAt     int  // if >= 0: once FailAt rows were delivered, Read fails
 	FailWith   error // the error returned at FailAt (default ZZErrUpstream)
 	PanicAt    int  // if > 0: once PanicAt-1 rows were delivered, Read panics
@@ -83,7 +84,10 @@ func (m *ZZModelReader) Read(ctx context.Context, out frame.Frame) (int, error) 
 	if m.empties >= m.MaxEmpty && max > 0 {
 		lo = 1
 	}
-	n := zz.AnyIntIn(m.Tag+"_n", lo, max)
+	n := max
+	if !m.Deterministic {
+		n = zz.AnyIntIn(m.Tag+"_n", lo, max)
+	}
 	if n > 0 {
 		frame.Copy(out, frame.Slices(m.Keys[m.pos:m.pos+n], m.Vals[m.pos:m.pos+n]))
 	}
